@@ -32,6 +32,15 @@ def run_store(ctx, model, cases):
         t.info['eviction_lines_nonempty'] = len(re.findall(r'^\d+( \d+)*$', text, re.M))
     with open(ops) as f:
         lines = f.read().split('\n')
+    if model == 'intern':
+        ob = intern_oracle(lines, text.split('\n'))
+        t.info['retention_oracle_failures'] = len(ob)
+        for (i, msg) in ob[:2]:
+            start = i
+            while start > 0 and not lines[start].startswith('new '):
+                start -= 1
+            rp = ctx.save_replay('store-intern-oracle-line%d.ops' % (i + 1), '\n'.join(lines[start:i + 1]) + '\n')
+            t.failures.append(Failure('oracle', 'interner line %d `%s`: %s' % (i + 1, lines[i], msg), replay=rp, key='intern-retention'))
     for (ln, op, a, b) in mism[:2]:
         # replay = the enclosing case (from the previous reset line)
         start = ln - 1
@@ -41,3 +50,59 @@ def run_store(ctx, model, cases):
         t.failures.append(Failure('model', 'store %s line %d `%s`: impl `%s` vs model `%s` (%d mismatching lines)' % (model, ln, op, a[:100], b[:100], total), replay=rp))
     t.samples.append({'ops': lines[:12]})
     return t
+
+
+def intern_oracle(ops_lines, impl_lines):
+    """C09/C08 retention-rule reference evaluated on the implementation's answers (independent of
+    the Lean model). Returns list of (lineno, message)."""
+    bad = []
+    fam = 3; cur = 1; used = set(); slots = {}; start = 0
+    for i, (op, out) in enumerate(zip(ops_lines, impl_lines)):
+        p = op.split(' ')
+        if p[0] == 'new' and len(p) == 2 and out == 'ok':
+            fam = None if p[1] == 'max' else int(p[1]); cur = 1; used = set(); slots = {}; start = i
+        elif p[0] == 'rev' and out == 'ok':
+            cur = int(p[1])
+        elif p[0] == 'intern' and len(p) == 4 and out not in ('bad-op', 'panic'):
+            dur, inq, f = int(p[1]), p[2] == '1', int(p[3])
+            kind, k, g = out.split(' ')
+            k = int(k)
+            edur = dur if inq else 3
+            elast = cur if inq else 10**18
+            if cur > 1:
+                used.add(cur)
+            holder = [s for s, v in slots.items() if v['value'] == f]
+            if kind == 'hit':
+                if holder != [k]:
+                    bad.append((i, 'hit on slot %d but value %d is held by %s' % (k, f, holder)))
+                else:
+                    # a hit from outside any function leaves the durability alone and only
+                    # refreshes the revision (src/interned.rs, fast path)
+                    if inq:
+                        slots[k]['maxdur'] = max(slots[k]['maxdur'], edur)
+                    slots[k]['last'] = max(slots[k]['last'], cur)
+                continue
+            if holder:
+                bad.append((i, 'value %d interned twice: new handle although slot %s holds it (not canonical)' % (f, holder)))
+            if kind == 'new':
+                if k in slots:
+                    bad.append((i, 'fresh id %d already in use' % k))
+                slots[k] = {'value': f, 'maxdur': edur, 'last': elast}
+            elif kind == 'reuse':
+                old = slots.get(k)
+                if old is None:
+                    bad.append((i, 'reuse of unknown slot %d' % k)); slots[k] = {'value': f, 'maxdur': edur, 'last': elast}; continue
+                u = sorted(used)
+                why = None
+                if fam is None:
+                    why = 'type disables collection (revisions = usize::MAX)'
+                elif old['maxdur'] != 0:
+                    why = 'old value was interned by a function of durability %d (not LOW)' % old['maxdur']
+                elif len(u) < fam:
+                    why = 'only %d revisions used the type so far (< %d)' % (len(u), fam)
+                elif not (old['last'] < u[-fam]):
+                    why = 'old value was interned in revision %d, within the last %d used revisions %s' % (old['last'], fam, u[-fam:])
+                if why:
+                    bad.append((i, 'slot %d (value %d) reclaimed for value %d although %s [case starts at line %d]' % (k, old['value'], f, why, start + 1)))
+                slots[k] = {'value': f, 'maxdur': edur, 'last': elast}
+    return bad
